@@ -106,9 +106,14 @@ Definition bl_exists (b : bl) (key0 : str) : bool :=
   else if is_nil (bm b) && is_nil (bwild b) then false
   else existsb (fun s => mem s (bm b) || mem s (bwild b)) (cands key).
 
-(* "*." and the 2 of key[2:], as the source spells them *)
-Definition set_wildp : str := hd [] set_wild_prefix_strs.
-Definition remove_wildp : str := hd [] remove_wild_prefix_strs.
+(* "*." and the 2 of key[2:] *)
+(* setLocked / removeLocked: literals here, tied to the source through the TRANSLATED functions
+   (Gen.C18.go_BlockList_setLocked / go_BlockList_removeLocked, Proofs_ops.gen_setLocked /
+   gen_removeLocked) — the four source-text pins that used to supply them are gone *)
+Definition set_wildp : str := [42; 46].
+Definition remove_wildp : str := [42; 46].
+Definition set_wild_skip : N := 2.
+Definition remove_wild_skip : N := 2.
 Definition persist_wildp : str := hd [] persist_wild_prefix_strs.
 
 (* unicode.IsSpace on ASCII *)
